@@ -34,7 +34,7 @@ ASSUMPTIONS = [
 REACH = {
     t: ["combos_all_48", "rstack_midstream", "error_frame", "ack_nak_rst_no_upward",
         "wraps_1000", "pending_send_variant", "accepted", "dup_retx_acked", "out_of_seq_naked",
-        "several_frames_in_one_read", "frames_after_host_side_failure"]
+        "several_frames_in_one_read", "frames_after_host_side_failure", "frames_between_host_rst_and_rstack"]
     for t in ("quick", "thorough")
 }
 SHARD_TIMEOUT = {"quick": 600, "thorough": 2400}
@@ -264,7 +264,7 @@ def part_after_failure(desc) -> Acc:
     syms = alphabet([0, 5]) + [("ERROR", c) for c in (0x00, 0x51, 0x80, 0xFF)] + [("RSTACK", c) for c in (0x00, 0x0B, 0xFF)]
 
     async def main(loop):
-        for how in ("timeouts", "naks"):
+        for how in ("timeouts", "naks", "host_rst", "host_rst_twice"):
             for start in (0, 3):
                 for tail in [[("ERROR", 0x80)], [("ERROR", 0x00)], [("ERROR", 0x51), ("ERROR", 0x52)], [("D", start, 0, 0), ("ERROR", 0xFF)],
                              [("RSTACK", 0x0B), ("D", 0, 0, 0)], [("A", 1), ("N", 0), ("ERROR", 0x53)]] + \
@@ -274,6 +274,22 @@ def part_after_failure(desc) -> Acc:
                     st = Stepper(acc)
                     ok = all(st.step(("D", i, 0, 0), 0xFFFF, case) for i in range(start))
                     if not ok:
+                        continue
+                    if how.startswith("host_rst"):
+                        # the host asked for a reset of its own (RST written, RSTACK not here yet): what the peer
+                        # still sends - callbacks in flight, an ERROR instead of the RSTACK - is judged by the same rule
+                        for _ in range(2 if how.endswith("twice") else 1):
+                            try:
+                                st.proto.send_reset()
+                            except Exception as e:  # noqa: BLE001
+                                acc.violation("C04/raises", f"send_reset() raised {e!r}", case)
+                        acc.hit("frames_between_host_rst_and_rstack")
+                        tag = 100
+                        for sym in tail:
+                            tag += 1
+                            if not st.step(sym, tag, case):
+                                break
+                        acc.nontrivial(("after_failure", how, start, tuple(tail)))
                         continue
                     task = asyncio.ensure_future(st.proto.send_data(b"host-frame"))
                     await asyncio.sleep(0)
@@ -359,6 +375,10 @@ def part_walk(desc) -> Acc:
                 sym = rnd.choice(syms)
             if not st.step(sym, i, case):
                 return False
+            if i % 997 == 500 and desc["seed"] % 2 == 0:
+                st.proto.send_reset()  # host-initiated reset requested in mid-stream; the rule is unchanged
+                st.hist.append(("host called send_reset()",))
+                acc.hit("frames_between_host_rst_and_rstack")
             if i % 1000 == 0:
                 acc.nontrivial(("walk", desc["seed"], i // 1000))
         return True
